@@ -102,6 +102,11 @@ def dispatch (f : String) (j : Json) : Option Json :=
       let some st := st | return Json.mkObj [("err", "bad stmt")]
       let some n := getNat j "n" | return Json.mkObj [("err", "bad n")]
       return Json.bool (if (getBool j "single").getD true then importFromNameOk n a st else endsWithStmt a st)
+  | "C05.undo_indent" => some <| Id.run do
+      let some t := (get j "tree").bind parseTree | return Json.mkObj [("err", "bad tree")]
+      let some k := getInt j "k" | return Json.mkObj [("err", "bad k")]
+      let some ind := (get j "ind").bind asInts | return Json.mkObj [("err", "bad ind")]
+      return posJson (mapTree (undoIndent k ind) t)
   | "C05.span" => some <| Id.run do
       -- text of a span inside the wrapper vs inside the source (both sides of `wrap_positions`)
       let some pre := getStr j "pre" | return Json.mkObj [("err", "bad pre")]
